@@ -184,6 +184,16 @@ def broadcast [Zero R] [Mul R] (d a : Tensor R) (ax : Nat) : Except Err (Tensor 
       .ok { a with blocks := sel.map (fun kb =>
               (kb.1, ⟨kb.2.shape, fun i => diagVal d (kb.1.getD ax []) (i.getD ax 0) * kb.2.val i⟩)) }
 
+/-- `a.diag()` (`_single.py:diag`): a diagonal tensor becomes an ordinary 2-leg tensor (same elements); a 2-leg tensor of zero charge,
+opposite signatures and square blocks becomes the diagonal tensor holding its diagonal (off-diagonal elements are dropped). -/
+def diag [Zero R] (a : Tensor R) : Except Err (Tensor R) :=
+  if a.isdiag then .ok { a with isdiag := false }
+  else if a.rank ≠ 2 ∨ a.s.foldl (· + ·) 0 ≠ 0 then .error .signature
+  else if a.n.any (· ≠ 0) then .error .charge
+  else if ¬ a.blocks.all (fun kb => kb.2.shape.getD 0 0 == kb.2.shape.getD 1 0) then .error .bondDim
+  else .ok { a with isdiag := true,
+                    blocks := a.blocks.map (fun kb => (kb.1, ⟨kb.2.shape, fun i => if i.getD 0 0 = i.getD 1 0 then kb.2.val i else 0⟩)) }
+
 /-- positions (inside sector `γ`) that a diagonal mask tensor keeps: the non-zero diagonal entries, ascending -/
 def maskIdx [Zero R] [DecidableEq R] (m : Tensor R) (γ : Charge) : List Nat :=
   match m.get? [γ, γ] with
